@@ -36,6 +36,7 @@ TECHNIQUE = "Hypothesis differential testing across backends + rule-based state 
 #: thorough tier: seed-dependent tasks are repeated under this many derived seeds (run.py); the listed task functions enumerate fixed domains
 THOROUGH_REPS = 3
 DETERMINISTIC_FNS = ('t_avail', 't_avail_default')
+RULE += " The state machine also selects backends through the documented aliases 'any' (keep the loaded one) and 'default' (first one the host supports)."
 
 MULTI = ["md5_crypt", "sha1_crypt", "sha256_crypt", "sha512_crypt", "des_crypt", "bsdi_crypt", "bcrypt", "bcrypt_sha256", "scrypt",
          "ldap_md5_crypt", "ldap_sha256_crypt", "ldap_des_crypt", "ldap_bcrypt", "django_bcrypt", "django_bcrypt_sha256", "ldap_sha1_crypt",
